@@ -133,6 +133,9 @@ def check_props(pid):
     obligations (theorem names), the number discharged, and the axioms
     reported by Print Assumptions."""
     src = os.path.join(COQ, "Props", pid + ".v")
+    if not os.path.exists(src):
+        return {"file": src, "names": [], "obligations": 0, "discharged": 0, "ok": False, "failing": None,
+                "closed": 0, "n_print": 0, "axioms": [], "forbidden": [], "log": "no Props file", "wall": 0}
     with open(src) as f:
         text = f.read()
     names = [m.group(2) for m in THM_RE.finditer(text)]
